@@ -3,6 +3,7 @@
 From Coq Require Import NArith Bool List.
 Import ListNotations.
 From XetModel Require Import Base.Codec Gen.ShardLayout Gen.DedupFacts Model.Merkle Model.Shard Model.Dedup Proofs.PipelineProofs Proofs.ResolveProofs Proofs.ReuploadProofs.
+From XetModel Require Import Gen.ManagerFacts Model.Manager Proofs.ShardSizeProofs Proofs.ShardDedupWholeProofs Proofs.ManagerProofs Proofs.ManagerWholeProofs.
 Open Scope N_scope.
 
 (* invariant "every xorb handed to the upload path has its CAS info in the session shard", preserved by every session step *)
@@ -71,8 +72,52 @@ Theorem C11_refusal_stores_known_chunk_again :
   /\ m_new_bytes (f_metrics (feed_blocks false rx_cfg_on rx_tbl fd0 [[ex_c1; ex_c2; rx_c3]])) = 30
   /\ m_defrag_chunks (f_metrics (feed_blocks false rx_cfg_on rx_tbl fd0 [[ex_c1; ex_c2; rx_c3]])) = 1.
 Proof. exact refusal_stores_known_chunk_again. Qed.
-(* that the on-disk lookup of a shard finds every chunk its CAS section lists is C05's completeness side, exercised end to
-   end by stream sess *)
+
+(* ---- the shard manager (ShardFileManager): the index of registered shard files, the in-memory shard, flushes ----
+   [register] is the model of register_shards at the regenerated fact index_counts_inserted_entries. *)
+
+(* total_indexed_chunks, the counter compared with the cap, is the number of entries the tables hold: after any sequence of
+   registrations, for every cap *)
+Theorem C11_index_counter_exact : forall cap ops, let b := fold_left (register cap) ops book0 in b_total b = total_size (b_colls b).
+Proof. exact total_indexed_exact. Qed.
+(* with the other shape of the counter (advanced by each shard's whole table) shards that share chunks exhaust the cap while
+   the tables are nearly empty, and a later shard's chunks are no longer found *)
+Theorem C11_counter_by_table_size_refuted :
+  let ops := [mkRS (repeat 1 32%nat) zero_hash [dx_c1]; mkRS (repeat 2 32%nat) zero_hash [dx_c1]; mkRS (repeat 3 32%nat) zero_hash [dx_c2]] in
+  let b := fold_left (register_with false 3) ops book0 in
+  b_total b <> total_size (b_colls b) /\ total_size (b_colls b) < 3 /\ mgr_query b [repeat 14 32%nat] = Found None
+  /\ exists a, mgr_query (fold_left (register_with true 3) ops book0) [repeat 14 32%nat] = Found (Some a).
+Proof. exact counter_by_table_size_refuted. Qed.
+
+(* below the cap, a chunk recorded in a registered shard file is found, whichever collections are asked first, when its
+   first 64 bits are unambiguous within its collection (the table keeps one entry per truncated hash) *)
+Theorem C11_registered_chunk_found : forall cap ops, N.of_nat (length ops) <= 65536 ->
+  let b := fold_left (register cap) ops book0 in b_total b < cap ->
+  forall c s blk j ch q0 qr, In c (b_colls b) -> In s (k_shards c) -> In blk (sh_cass s) -> nth_error (ci_chunks blk) j = Some ch -> N.of_nat j <= 65535 ->
+    ce_hash ch = keyed (k_key c) q0 -> NoTruncClash c ->
+    exists n sg, mgr_query b (q0 :: qr) = Found (Some (n, sg)).
+Proof. exact registered_chunk_found. Qed.
+(* once the cap is reached later shards are registered without their chunks ("beyond those, we simply drop the search"): the
+   premise b_total b < cap cannot be dropped *)
+Theorem C11_cap_reached_drops_search : mgr_query (fold_left (register 2) [mx_s1; mx_s2] book0) mx_q = Found None
+  /\ b_total (fold_left (register 2) [mx_s1; mx_s2] book0) = 2.
+Proof. exact mx_capped. Qed.
+
+(* the whole manager, any sequence of add_cas_block / add_file_reconstruction_info / flush (explicit or by the size target) /
+   register_shards: below the cap every chunk of every block ever added is found afterwards, from memory or from the flushed
+   file.  blocks_ok: hashes are 32 bytes, two added blocks with one xorb hash are the same block; shards_ok: registered files
+   carry 32-byte identities (a flushed file gets a fresh one) *)
+Theorem C11_added_chunk_found_across_flushes : forall ra cap target ops, shards_ok ops -> N.of_nat (length ops) <= 65536 -> blocks_ok ops ->
+  let g := mgr_run ra cap target ops in b_total (g_book g) < cap ->
+  (forall c, In c (b_colls (g_book g)) -> k_key c = zero_hash -> NoTruncClash c) ->
+  forall blk j ch qr, In (MAddCas blk) ops -> nth_error (ci_chunks blk) j = Some ch -> N.of_nat j <= 65535 ->
+  exists n sg, mgr_dedup g (ce_hash ch :: qr) = Found (Some (n, sg)) /\ 1 <= n.
+Proof. exact added_chunk_found. Qed.
+Theorem C11_manager_example :
+  (exists n sg, mgr_dedup (mgr_run true 100 1000000 wx_ops) [repeat 12 32%nat; repeat 99 32%nat] = Found (Some (n, sg)) /\ 1 <= n)
+  /\ (exists n sg, mgr_dedup (mgr_run true 100 1000000 wx_ops) [repeat 14 32%nat] = Found (Some (n, sg)) /\ 1 <= n)
+  /\ length (b_known (g_book (mgr_run true 100 1000000 wx_ops))) = 1%nat.
+Proof. exact wx_found. Qed.
 
 Print Assumptions C11_completion_recorded.
 Print Assumptions C11_finalize_recorded.
@@ -83,3 +128,8 @@ Print Assumptions C11_reupload_after_session.
 Print Assumptions C11_chunkless_session_uploads_nothing.
 Print Assumptions C11_reupload_example.
 Print Assumptions C11_refusal_stores_known_chunk_again.
+Print Assumptions C11_index_counter_exact.
+Print Assumptions C11_registered_chunk_found.
+Print Assumptions C11_added_chunk_found_across_flushes.
+Print Assumptions C11_manager_example.
+Print Assumptions C11_counter_by_table_size_refuted.
